@@ -341,7 +341,10 @@ fn workload(depth: u8) {
     }
 }
 
-fn shape_dispatch(c: &ShapeCfg, sink: Sink) -> Dispatch {
+fn shape_dispatch<W>(c: &ShapeCfg, sink: W) -> Dispatch
+where
+    W: for<'w> MakeWriter<'w> + Send + Sync + 'static,
+{
     let o = c.opts;
     let b = |i: u8| o & (1 << i) != 0;
     let spans = {
@@ -515,15 +518,30 @@ impl std::fmt::Debug for ReentrantDebug {
 }
 
 fn check_history(format: u8, h: &[u8]) -> Vec<String> {
+    let mut bad = check_history_with(format, h, false);
+    // the same history through the crate's `MakeWriter for Mutex<W>` (a writer that holds a lock for
+    // as long as it lives); re-entrant formatting is left out of this variant (it would need a
+    // re-entrant lock whatever the formatter does)
+    if !h.contains(&2) {
+        bad.extend(check_history_with(format, h, true).into_iter().map(|m| format!("[writer = Mutex<W>] {}", m)));
+    }
+    bad
+}
+
+fn check_history_with(format: u8, h: &[u8], locked_writer: bool) -> Vec<String> {
     wlog_clear();
-    let d = shape_dispatch(&ShapeCfg { format, opts: 0b0000_0011, span_events: 0, depth: 0 }, Sink { id: 0, points: false });
+    let cfg = ShapeCfg { format, opts: 0b0000_0011, span_events: 0, depth: 0 };
+    let d = if locked_writer { shape_dispatch(&cfg, std::sync::Mutex::new(SinkWriter { id: 0, points: false })) } else { shape_dispatch(&cfg, Sink { id: 0, points: false }) };
     let mut bad = vec![];
     tracing_core::dispatch::with_default(&d, || {
         for (i, op) in h.iter().enumerate() {
             let n0 = wlog_len();
             match op {
                 0 => {
-                    tracing::event!(name: "normal", tracing::Level::INFO, k = i, "plain");
+                    if let Err(p) = std::panic::catch_unwind(|| tracing::event!(name: "normal", tracing::Level::INFO, k = i, "plain")) {
+                        let m = p.downcast_ref::<String>().cloned().or_else(|| p.downcast_ref::<&str>().map(|s| s.to_string())).unwrap_or_default();
+                        bad.push(format!("step {}: emitting a normal event panicked: {}", i, m));
+                    }
                     let w: Vec<WEv> = wlog_since(n0).into_iter().filter(|e| e.kind == "write").collect();
                     if w.len() != 1 {
                         bad.push(format!("step {}: a normal event produced {} writes", i, w.len()));
